@@ -27,6 +27,12 @@ def reg (p : Nat) (hs : List Nat) (i : Nat) : Nat :=
 def regs (p : Nat) (hs : List Nat) : Array Nat :=
   hs.foldl (fun a h => a.set! (bucket p h) (max a[bucket p h]! (rho p h))) (Array.replicate (2 ^ p) 0)
 
+/-- one more batch of hashes folded into a register array: the fold of `regs` continued.  The driver's
+    spec column keeps the array of a sketch and continues it over whatever arrives later, whichever
+    way it arrives (`regs p (A ++ B) = accum p (regs p A) B`, `Sourmash.C17.spec_accum`). -/
+def accum (p : Nat) (a : Array Nat) (hs : List Nat) : Array Nat :=
+  hs.foldl (fun a h => a.set! (bucket p h) (max a[bucket p h]! (rho p h))) a
+
 /-- the register-wise union: what merging must produce -/
 def mergeRegs (a b : Array Nat) : Array Nat := Array.zipWith max a b
 
